@@ -26,10 +26,7 @@ import (
 	"verifharness/internal/h"
 )
 
-const (
-	sigSemicolon = "C04.string-ns0-semicolon"
-	sigNsuSemi   = "C04.nsu-uri-semicolon"
-)
+const sigNsuSemi = "C04.nsu-uri-semicolon"
 
 type env struct {
 	o   *h.Opts
@@ -163,10 +160,8 @@ func (e *env) runStr(line string, t []string) {
 		return
 	}
 	// ---- oracle: parsing the string form yields a NodeID equal to the original
-	sig := ""
 	if p.mask&0xf == 3 && p.ns == 0 && bytes.IndexByte(p.bid, ';') >= 0 {
-		sig = sigSemicolon
-		e.r.Hit("str:string-ns0-with-semicolon")
+		e.r.Hit("str:string-ns0-with-semicolon") // the shape of the repaired C04.string-ns0-semicolon
 	}
 	var q *ua.NodeID
 	var err error
@@ -175,14 +170,8 @@ func (e *env) runStr(line string, t []string) {
 		return
 	}
 	if err != nil {
-		e.r.Fail(line, sig, fmt.Sprintf("ParseNodeID(%q) fails: %v", s, err))
-		if sig != "" {
-			e.r.Confirm(sig, fmt.Sprintf("String() = %q; ParseNodeID: %v", s, err))
-		}
+		e.r.Fail(line, "", fmt.Sprintf("ParseNodeID(%q) fails: %v", s, err))
 		return
-	}
-	if sig != "" {
-		e.r.Hit("finding-signature-but-parses")
 	}
 	if !sameNode(partsOf(q), p) {
 		e.r.Fail(line, "", fmt.Sprintf("ParseNodeID(%q) = {%s}, a different node than {%s}", s, partsOf(q).line(), p.line()))
@@ -227,7 +216,7 @@ func (e *env) runEq(line string, t []string) {
 
 func classifyText(s string) string {
 	nsval, idval := "ns=0", s
-	if i := strings.IndexByte(s, ';'); i >= 0 {
+	if i := strings.IndexByte(s, ';'); i >= 0 && !strings.HasPrefix(s, "s=") {
 		nsval, idval = s[:i], s[i+1:]
 	}
 	k := "other"
